@@ -322,7 +322,7 @@ func (ev *Env) index(x, i Val) Val {
 		if isByte(u.Elem()) {
 			return Val{T: u.Elem(), L: []string{"(bat " + x.L[0] + " " + ev.one(i, "index") + ")"}}
 		}
-		loc := &Loc{Elem: true, Root: rootKey(u.Elem()), RootT: u.Elem(), Ref: x.L[0], Idx: "(+ " + x.L[1] + " " + ev.one(i, "index") + ")", T: u.Elem()}
+		loc := &Loc{Elem: true, Root: rootKey(u.Elem()), RootT: u.Elem(), Ref: x.L[0], Idx: "(ix " + x.L[1] + " " + ev.one(i, "index") + ")", T: u.Elem()}
 		return ev.fx.loadLoc(ev.cur, loc)
 	case *types.Basic:
 		if isString(x.T) {
